@@ -93,6 +93,8 @@ Inductive ev :=
 | ERead (depth idx : nat) (d : list byte) (* an HCons handler of that route obtained these bytes *)
 | EFallback (depth : nat) (b : list byte) (* Compile called its next handler; b = bytes available *)
 | ESkip (depth idx : nat) (b : list byte) (* ghost: route idx passed over because of its cached routeNotMatched *)
+| ENext (depth idx : nat) (b : list byte) (* ghost: the handlers of route idx called the last handler (the route was not terminal);
+                                            b = bytes available on the connection they handed on *)
 | EDrop (depth : nat) (w : dropwhy)       (* Compile logged and returned nil during matching *)
 | EHErr (depth idx : nat)                 (* a handler returned an error *)
 | EPanic (depth idx : nat).               (* a matcher panicked *)
@@ -213,7 +215,7 @@ Fixpoint pass (i : nat) (rest : list route) (lm lnm : option nat) (stt : stmap) 
     | Yes =>
         let s1 := emit (ERun depth i (avail s)) (clear s) in
         match chain i hs (fun st' => Cont st') s1 with
-        | Cont s2 => pass (S i) rest' (Some i) (Some i) (setst stt i SYes) nm s2
+        | Cont s2 => pass (S i) rest' (Some i) (Some i) (setst stt i SYes) nm (emit (ENext depth i (avail s2)) s2)
         | r => PFinal r
         end
     end
